@@ -218,7 +218,7 @@ def check_gap_before_tracking(ctx, bs, rid):
 
 
 
-def _r5_excited_rows(ctx, repo):
+def _r5_excited_rows(ctx, repo, rid="R5"):
     """`Etot += X` in Energy.forward: X starts as zeros and every later store into X selects rows with the excited-state mask
     (active_states > 0).  A whole-tensor rebinding gives ground-state molecules of a mixed batch an excitation energy.
     One inventoried exception: the XL-ESMD branch (all trajectories are excited there: make_cis_densities raises for active state 0,
@@ -255,15 +255,15 @@ def _r5_excited_rows(ctx, repo):
                     continue
                 ctrl = [(norm(a), p) for a, p, _ in controlling(bas, st, stop=f)]
                 xl = ("self.xlesmd", True) in ctrl
-                ctx.check(xl, "R5", bas, st, "Energy.forward", st, f"whole-tensor assignment of {X} only in the XL-ESMD branch (all trajectories excited there)",
+                ctx.check(xl, rid, bas, st, "Energy.forward", st, f"whole-tensor assignment of {X} only in the XL-ESMD branch (all trajectories excited there)",
                           f"`{short(norm(st), 70)}` rebinds {X} for every molecule: in a batch that mixes ground and excited active states the ground-state molecules get an "
                           f"excitation energy added to Etot / Hf")
             elif isinstance(t, ast.Subscript) and norm(t.value) == X:
                 n += 1
                 sel = t.slice
                 ok = isinstance(sel, ast.Name) and sel.id in masks
-                ctx.check(ok, "R5", bas, st, "Energy.forward", st, f"{X}[{norm(sel)}] = ...: only excited rows receive an excitation energy",
+                ctx.check(ok, rid, bas, st, "Energy.forward", st, f"{X}[{norm(sel)}] = ...: only excited rows receive an excitation energy",
                           f"`{short(norm(st), 70)}` writes {X} with selector `{norm(sel)}` which is not the excited-state mask {sorted(masks)}")
-    ctx.check(zero_init, "R5", bas, f, "Energy.forward", f"{X} = zeros", f"{X} starts as zeros", f"{X} is not zero-initialised")
+    ctx.check(zero_init, rid, bas, f, "Energy.forward", f"{X} = zeros", f"{X} starts as zeros", f"{X} is not zero-initialised")
     if n < 3:
         raise AnalysisError(f"only {n} stores of {X} found")
